@@ -20,6 +20,7 @@ from __future__ import annotations
 
 from typing import Any, Callable, Iterable, Iterator, List, Mapping, Optional, Type
 import attr
+import grpc
 from vizier._src.service import constants
 from vizier._src.service import resources
 from vizier._src.service import vizier_client
@@ -178,7 +179,13 @@ class Study(client_abc.StudyInterface):
       # Check if the trial actually exists.
       trial = self._client.get_trial(trial_id)
       return self._trial_client(trial)
-    except KeyError as err:
+    except (KeyError, grpc.RpcError) as err:
+      # Local service: NotFoundError (a KeyError). Remote service: NOT_FOUND.
+      if (
+          isinstance(err, grpc.RpcError)
+          and err.code() != grpc.StatusCode.NOT_FOUND  # pytype:disable=attribute-error
+      ):
+        raise
       raise ResourceNotFoundError(
           f'Study {self.resource_name} does not have Trial {trial_id}.'
       ) from err
